@@ -58,6 +58,12 @@ func checkC09(c *Ctx) {
 	c.Rule("C09.R10", "model evaluation with symbolic parameters: every registered projection whose forward easting has a polar angle N·(λ−λ₀) with N following the standard parallels (a conic) is rebuilt with +lat_2 = +lat_1 and a different +lat_0; N must then be, as a term, the sine of the stored standard parallel — Snyder's cone constant of a single-parallel Lambert, Albers and equidistant conic on sphere and ellipsoid alike (a necessary condition of agreeing with the reference formulas; the radius functions are not compared)")
 	c09coneModel(c, "C09.R10")
 	c.Floor("C09.R10", 3)
+	c.Rule("C09.R11", "model evaluation: for several zones, with and without +south, both members built for +proj=utm +zone=Z return term for term what the members of the transverse Mercator projection return for lat_0 = 0, lon_0 = 6·Z − 183°, k_0 = 0.9996, x_0 = 500000 and y_0 = 0 (north) or 10000000 (south)")
+	c09utmModel(c, "C09.R11")
+	c.Floor("C09.R11", 5)
+	c.Rule("C09.R12", "model evaluation: for every entry of the bundled proj4js datum table, +datum=<name> parses to the same semi-axes, eccentricity and stored shift values as +ellps=<the entry's ellipsoid> +towgs84=<the entry's shift> (a named datum brings its own ellipsoid and shift, as in proj4js deriveConstants)")
+	c09namedDatumModel(c, "C09.R12", a.js)
+	c.Floor("C09.R12", 10)
 	c.Floor("C09.R7", 4)
 	c.Floor("C09.R6", 1)
 	c.Floor("C09.R1", 60)
